@@ -5,6 +5,7 @@ package main
 // the synchronisation primitives known to the scheduler.
 
 import (
+	"time"
 	"fmt"
 	"go/token"
 	"go/types"
@@ -400,6 +401,13 @@ func init() {
 		}
 		return &cell
 	}
+	reg("time.ParseDuration", func(fr *frame, args []value) value {
+		d, err := time.ParseDuration(strOf(args[0]))
+		if err != nil {
+			return tuple{int64(0), fr.m.mkError(err.Error())}
+		}
+		return tuple{int64(d), iface{}}
+	})
 	reg("time.NewTicker", func(fr *frame, args []value) value { return mkTimer(fr, "Ticker", true) })
 	reg("time.NewTimer", func(fr *frame, args []value) value { return mkTimer(fr, "Timer", true) })
 	reg("time.AfterFunc", func(fr *frame, args []value) value { return mkTimer(fr, "Timer", false) })
